@@ -15,7 +15,7 @@ ctx.store[("ghost",)] and turned into C06 obligations by the contracts."""
 import itertools
 import z3
 
-from .core import (INT, BOOL, V, NONE, ABSENT, TRUEV, FALSEV, Unsupported, PyRaise, Seq, MList, filter_seq,
+from .core import (INT, BOOL, V, NONE, ABSENT, TRUEV, FALSEV, Unsupported, PyRaise, Seq, MList, filter_seq, Enum,
                    is_z3, is_v, is_sym_int, is_sym_bool, is_intlike, is_boollike, zint, zbool, conc, in_range,
                    vint, intof, truthy, v_lt)
 from .interp import (ModelFn, ModuleNS, TypeObj, ClassObj, Instance, BoundMethod, PyList, SliceVal, StarSeq,
@@ -623,7 +623,63 @@ def _m_sum(it, args, kwargs):
     raise Unsupported("sum of non-boolean array")
 
 
-ARRAY_METHODS = {"copy": ModelFn("ndarray.copy [fresh]", _m_copy), "view": ModelFn("ndarray.view [view]", _m_view),
+def elt_lt(kind, x, y):
+    """x sorts strictly before y in NumPy's sort order for dtype kind: NaN / NaT last, otherwise the value order"""
+    k = kind_term(kind)
+    base = v_lt(x, y)
+    fl = z3.And(z3.Not(is_nan(x)), z3.Or(is_nan(y), base))
+    dt = z3.And(z3.Not(is_nat(x)), z3.Or(is_nat(y), base))
+    return z3.If(k == KCODE["float"], fl, z3.If(z3.Or(k == KCODE["datetime"], k == KCODE["timedelta"]), dt, base))
+
+
+def _m_argsort(it, args, kwargs):
+    """argsort(kind="stable"): a permutation that orders the elements (NaN/NaT last), stable."""
+    from .speclib import Perm
+    a = args[0]
+    if kwargs.get("kind") != "stable":
+        raise Unsupported("argsort without kind='stable'")
+    s = a.seq
+    ctx = it.ctx
+    pm = Perm(ctx, s.len, "argsort")
+    x, y = z3.Ints("a!as b!as")
+    rng = z3.And(0 <= x, x < y, y < zint(s.len))
+    if s.sort == INT:
+        lt = lambda p, q: s.at(p) < s.at(q)
+    elif s.sort == BOOL:
+        lt = lambda p, q: z3.And(z3.Not(s.at(p)), s.at(q))
+    else:
+        lt = lambda p, q: elt_lt(a.kind, s.at(p), s.at(q))
+    px, py = pm.perm(x), pm.perm(y)
+    ctx.assumptions.append(z3.ForAll([x, y], z3.Implies(rng, z3.And(z3.Not(lt(py, px)), z3.Implies(z3.Not(lt(px, py)), px < py))),
+                                     patterns=[z3.MultiPattern(pm.perm(x), pm.perm(y))]))
+    srt = getattr(s, "sorted_seq", None)
+    if srt is not None:
+        # a rearrangement of a strictly increasing sequence sorts back to that sequence (consequence of the above)
+        j = z3.Int("j!as")
+        ctx.assumptions.append(z3.ForAll([j], z3.Implies(in_range(j, s.len), s.at(pm.perm(j)) == srt.at(j)), patterns=[pm.perm(j)]))
+    r = NDArr(ctx, Seq(s.len, lambda j: pm.perm(j), INT), "int", "fresh", a.cls)
+    r.perm = pm
+    it.last_argsort = pm
+    return r
+
+
+def _m_max(it, args, kwargs):
+    a = args[0]
+    s = a.seq
+    if not it.ctx.branch(zint(s.len) > 0):
+        raise PyRaise("ValueError", "zero-size array to reduction operation maximum which has no identity")
+    if s.sort != INT:
+        raise Unsupported("max of a non-integer array")
+    m = it.ctx.fresh("amax", INT)
+    j = z3.Int("j!mx")
+    w = it.ctx.fresh("amax_at", INT)
+    it.ctx.assumptions.append(z3.ForAll([j], z3.Implies(in_range(j, s.len), s.at(j) <= m), patterns=[s.at(j)]))
+    it.ctx.assumptions.append(z3.And(in_range(w, s.len), s.at(w) == m))
+    return m
+
+
+ARRAY_METHODS = {"argsort": ModelFn("ndarray.argsort(kind='stable')", _m_argsort), "max": ModelFn("ndarray.max", _m_max),
+                 "copy": ModelFn("ndarray.copy [fresh]", _m_copy), "view": ModelFn("ndarray.view [view]", _m_view),
                  "astype": ModelFn("ndarray.astype [fresh]", _m_astype), "repeat": ModelFn("ndarray.repeat [fresh]", _m_repeat),
                  "any": ModelFn("ndarray.any", _m_any), "all": ModelFn("ndarray.all", _m_all),
                  "tolist": ModelFn("ndarray.tolist", _m_tolist), "sum": ModelFn("ndarray.sum", _m_sum)}
@@ -817,6 +873,29 @@ def _np_split(it, args, kwargs):
     raise Unsupported("np.split")
 
 
+def _np_unique(it, args, kwargs):
+    """np.unique(a, return_index=True): (sorted distinct values, index of the first occurrence of each).  Only the
+    index part is modelled: a rearrangement of the increasing enumeration of the first occurrences (NaN and NaT
+    count as equal to themselves here - NumPy's equal_nan=True)."""
+    from .speclib import Perm
+    a = as_arr(it, args[0])
+    if not kwargs.get("return_index") or kwargs.get("return_inverse"):
+        raise Unsupported("np.unique without return_index / with return_inverse")
+    ctx = it.ctx
+    s = a.seq
+    q = z3.Int("q!un")
+    same = lambda p, r: s.at(p) == s.at(r) if s.sort != V else z3.Or(s.at(p) == s.at(r), z3.And(is_nan(s.at(p)), is_nan(s.at(r))),
+                                                                   z3.And(is_nat(s.at(p)), is_nat(s.at(r))))
+    first = lambda i: z3.Not(z3.Exists([q], z3.And(0 <= q, q < i, same(q, i))))
+    e = Enum.of(ctx, s.len, first)
+    inc = Seq(e.cnt, lambda j: e.idx(j), INT)
+    pm = Perm(ctx, e.cnt, "uniqorder")
+    idx = Seq(e.cnt, lambda j: e.idx(pm.perm(j)), INT)
+    idx.sorted_seq = inc
+    vals = NDArr(ctx, Seq(e.cnt, lambda j: s.at(e.idx(pm.perm(j))), s.sort), a.kind, "fresh", a.cls)
+    return (vals, NDArr(ctx, idx, "int", "fresh", a.cls))
+
+
 def _np_random_choice(it, args, kwargs):
     """np.random.choice(n, k, replace=False): k distinct values of range(n) (order arbitrary)."""
     n, k = args[0], args[1]
@@ -850,7 +929,7 @@ def make_np(it):
         "fromiter": ModelFn("np.fromiter", _np_fromiter), "issubdtype": ModelFn("np.issubdtype", _np_issubdtype),
         "isnan": ModelFn("np.isnan", _np_isnan), "isnat": ModelFn("np.isnat", _np_isnat),
         "array": ModelFn("np.array [fresh]", _np_array), "lexsort": ModelFn("np.lexsort", _np_lexsort),
-        "split": ModelFn("np.split [views]", _np_split), "dtype": ModelFn("np.dtype", _np_dtype),
+        "split": ModelFn("np.split [views]", _np_split), "unique": ModelFn("np.unique(return_index)", _np_unique), "dtype": ModelFn("np.dtype", _np_dtype),
         "isscalar": ModelFn("np.isscalar", lambda it_, a, k: not isinstance(a[0], (NDArr, MList, PyList, Seq, list, tuple, dict, GenValue))
                             and not hasattr(a[0], "pyvc_segments")),
         "ndarray": NDARRAY, "bool_": TypeObj("bool_"), "bytes_": TypeObj("bytes_"), "datetime64": TypeObj("datetime64"),
